@@ -412,6 +412,7 @@ def unit_unwrap(ctx, specs, uname, what, vmapped=False):
         reqs += ["unwrap " + sx, "trace " + sx]
     outs = ctx.model(reqs)
     for i, (spec, obj, sx) in enumerate(built):
+        _gc(i, 60)
         mu, mt = outs[2 * i], outs[2 * i + 1]
         term = ts.parse(sx)
         nw, dw = ts.count_wrappers(term), ts.depth_wrappers(term)
@@ -426,7 +427,7 @@ def unit_unwrap(ctx, specs, uname, what, vmapped=False):
         if raised is not None:
             if mu.startswith("OK"):
                 u.disagreements += 1
-                ctx.violation(sig=f"unwrap:raises:{_sig(spec)}", what=f"wrappers.unwrap raises ({raised}) where the model returns a value",
+                ctx.violation(sig=f"{uname}:raises", what=f"wrappers.unwrap raises ({raised}) where the model returns a value",
                               case=case, found_input=False, unit=uname, expected=mu[:300], observed=raised,
                               broken="correspondence unwrap / C12_unwrap_*")
             continue
@@ -434,13 +435,13 @@ def unit_unwrap(ctx, specs, uname, what, vmapped=False):
             e2 = oracle_vmapped(spec, ru)
             errs += e2
         if errs:
-            ctx.violation(sig=f"unwrap:oracle:{errs[0].split(':')[0][:40]}:{_sig(spec)}", what="; ".join(errs)[:600], case=case, found_input=True,
+            ctx.violation(sig=f"{uname}:oracle:{errs[0].split(':')[0][:40]}", what="; ".join(errs)[:600], case=case, found_input=True,
                           unit=uname, expected="unwrap idempotent, every wrapper applied once inside-out, vmapped = stacked", observed=errs,
                           broken="C12_unwrap_idempotent / C12_unwrap_each_once",
                           reproducer="cd /verif && ./check C12 --replay <this file>")
         if not mu.startswith("OK"):
             u.disagreements += 1
-            ctx.violation(sig=f"unwrap:model-none:{_sig(spec)}", what=f"the model's unwrap is undefined ({mu}) where wrappers.unwrap returns a value",
+            ctx.violation(sig=f"{uname}:model-none", what=f"the model's unwrap is undefined ({mu}) where wrappers.unwrap returns a value",
                           case=case, found_input=False, unit=uname, expected=mu, observed=su[:300], broken="correspondence unwrap")
             continue
         d = ts.diff(ts.parse(mu[3:]), ts.parse(su), rtol=rtol)
@@ -449,11 +450,20 @@ def unit_unwrap(ctx, specs, uname, what, vmapped=False):
             u.disagreements += 1
             what = (f"unwrap: model and implementation differ at {d[0]}: {d[1]} (model vs real)" if d else
                     f"the .unwrap() calls made {calls} differ from the model's trace {mcalls}")
-            ctx.violation(sig=f"unwrap:{'value' if d else 'trace'}:{_sig(spec)}", what=what, case=case, found_input=False, unit=uname,
+            ctx.violation(sig=f"{uname}:{'value' if d else 'trace'}", what=what, case=case, found_input=False, unit=uname,
                           expected=mu[:400], observed=su[:400], broken="correspondence unwrap / C12_unwrap_each_once",
                           reproducer="cd /verif && ./check C12 --replay <this file>")
         if len(u.hashes) % 60 == 1:
             ctx.sample({"unit": uname, "term": sx[:300], "unwrapped": su[:200], "calls": calls})
+
+
+def _gc(i, every=40):
+    """JAX keeps every compiled executable alive; thousands of distinct small programs exhaust the code memory of LLVM."""
+    if i % every == every - 1:
+        import gc
+
+        _setup()["jax"].clear_caches()
+        gc.collect()
 
 
 def _sig(spec):
@@ -516,7 +526,7 @@ def unit_malformed(ctx, n):
             raised = True
         if raised != (mu == "NONE"):
             u.disagreements += 1
-            ctx.violation(sig=f"unwrap:malformed:{_sig(spec)}", what=f"unwrap {'raises' if raised else 'returns'} where the model is {'defined' if raised else 'undefined'}",
+            ctx.violation(sig="unwrap:malformed", what=f"unwrap {'raises' if raised else 'returns'} where the model is {'defined' if raised else 'undefined'}",
                           case={"kind": "unwrap", "spec": spec}, found_input=False, unit=u.name, expected=mu[:200], observed=raised,
                           broken="correspondence unwrap (raise vs None)")
 
@@ -537,6 +547,7 @@ def unit_partition(ctx, specs):
         reqs += ["count " + sx, f"ctor {','.join(float(v).hex() for v in vec) or '-'} " + sx, "nontrainable " + sx, "part " + sx]
     outs = ctx.model(reqs)
     for i, (spec, obj, sx, ctor, n, vec) in enumerate(built):
+        _gc(i, 100)
         mc, mctor, mnt, mpart = outs[4 * i: 4 * i + 4]
         term = ts.parse(sx)
         mp = ts.parse(mpart.split(" | ")[0])
@@ -577,7 +588,7 @@ def unit_partition(ctx, specs):
             oracle.append(f"non_trainable left {len(left)} inexact array leaf/leaves trainable, e.g. at {left[0][0]}")
         if oracle or problems:
             u.disagreements += bool(problems)
-            ctx.violation(sig=f"partition:{(oracle or problems)[0].split(' ')[0]}:{_sig(spec)}", what="; ".join(oracle + problems)[:600], case=case,
+            ctx.violation(sig=f"partition:{(oracle or problems)[0].split(' ')[0]}", what="; ".join(oracle + problems)[:600], case=case,
                           found_input=bool(oracle), unit=u.name, expected=f"model: {mc} | {mctor[:200]}", observed=f"{n}",
                           broken="correspondence partition / C12_conditioner_excludes_frozen",
                           reproducer="cd /verif && ./check C12 --replay <this file>")
@@ -671,6 +682,7 @@ def unit_loops(ctx, specs):
         reqs += ["part " + ts.ser(obj, values=False, ids=False), f"fit {','.join([float(1).hex()] * steps)} " + sx]
     outs = ctx.model(reqs)
     for i, (spec, obj, sx, steps, loop) in enumerate(built):
+        _gc(i, 20)
         mpart, mfit = outs[2 * i], outs[2 * i + 1]
         term = ts.parse(sx)
         ntr, nfz = len(list(_trainable_positions(term))), len(list(_frozen_float_positions(term)))
@@ -787,11 +799,7 @@ def freeze_random(r, model, k, perturb=True):
             continue
         p = cands[int(r.integers(0, len(cands)))]
         try:
-            node = _get_at(model, p)
-            # NonTrainable.unwrap applies stop_gradient to python scalars too; on modules whose (non-static) shape holds python
-            # ints that breaks jit -- probed separately by unit_frozen_submodule; here such nodes are frozen leaf-wise
-            has_py = any(isinstance(l, (bool, int, float)) for l in jtu.tree_leaves(node))
-            if mode != 0 and (has_py or int(r.integers(0, 4)) == 0):
+            if mode != 0 and int(r.integers(0, 4)) == 0:
                 model = eqx.tree_at(lambda t: _get_at(t, p), model, replace_fn=w.non_trainable)
             else:
                 model = eqx.tree_at(lambda t: _get_at(t, p), model, replace_fn=w.NonTrainable)
@@ -917,8 +925,8 @@ def unit_training(ctx, n):
         if c["model"] in ("spline", "tri-spline", "bnaf") and c["loop"] == "var":
             c["loop"] = "data"  # sampling through a numerically inverted / spline-inverse layer is slow; the partition code path is the same
         cases.append(c)
-    for c in cases:
-        t0 = time.time()
+    for ci, c in enumerate(cases):
+        _gc(ci, 6)
         try:
             err, info = run_training_case(c)
         except Exception as e:
@@ -960,6 +968,7 @@ def unit_methods(ctx, n):
     names = list(_models())
     r = ctx.rng
     for i in range(n):
+        _gc(i, 7)
         m = names[i % len(names)]
         seed = int(r.integers(0, 2**31 - 1))
         rr = np.random.default_rng(seed)
@@ -971,7 +980,7 @@ def unit_methods(ctx, n):
         outs = []
         calls = [("log_prob", lambda d: d.log_prob(x)), ("sample", lambda d: d.sample(key)), ("sample_and_log_prob", lambda d: d.sample_and_log_prob(key))]
         b0 = getattr(model, "bijection", None)
-        if b0 is not None and m not in ("bnaf",):
+        if b0 is not None and not isinstance(b0, w.AbstractUnwrappable) and m not in ("bnaf",):
             calls += [("bijection.transform_and_log_det", lambda d: d.bijection.transform_and_log_det(x)),
                       ("bijection.transform", lambda d: d.bijection.transform(x))]
             if m not in ("tri-spline",):
@@ -1003,6 +1012,7 @@ def unit_conditioner(ctx, n):
                                 "(trainable inexact scalars per the model) x dim; frozen leaves of the constructed transformer equal the original's")
     r = ctx.rng
     for i in range(n):
+        _gc(i, 20)
         seed = int(r.integers(0, 2**31 - 1))
         rr = np.random.default_rng(seed)
         kind = int(rr.integers(0, 3))
@@ -1047,40 +1057,59 @@ def unit_conditioner(ctx, n):
                           broken="C12_conditioner_excludes_frozen", reproducer="cd /verif && ./check C12 --replay <this file>")
 
 
-def unit_frozen_submodule(ctx):
-    """NonTrainable around a WHOLE module whose non-static `shape` holds python ints: lax.stop_gradient is applied to those
-    ints (eqx.is_array_like), which yields tracers under jit.  Methods must give the same result eagerly, jitted, and on the
-    pre-unwrapped object.  Reported as a violation only when known_findings.json has a C12 entry for it (see final report);
-    otherwise recorded as a note."""
+def frozen_submodule_case(mode):
+    """NonTrainable around a WHOLE module whose non-static `shape` field holds python ints (finding fixed by 16c42ed:
+    stop_gradient used to be applied to those ints, which become tracers under jit).  -> error string or None."""
     s = _setup()
-    jnp, eqx, w = s["jnp"], s["eqx"], s["wrappers"]
+    jnp, jr, eqx, w = s["jnp"], s["jr"], s["eqx"], s["wrappers"]
+    from flowjax import bijections as bij
     from flowjax import distributions as dist
+    from flowjax.train.losses import ElboLoss
 
-    u = ctx.unit("frozen-submodule", "NonTrainable around a whole bijection of shape (2,): log_prob eager vs jitted vs on unwrap(object)")
-    d = eqx.tree_at(lambda d: d.bijection, dist.Normal(jnp.array([0.5, -0.25]), jnp.array([1.5, 0.75])), replace_fn=w.NonTrainable)
+    loc, scale = jnp.array([0.5, -0.25]), jnp.array([1.5, 0.75])
     x = jnp.array([0.25, 1.0])
-    ref = dist.Normal(jnp.array([0.5, -0.25]), jnp.array([1.5, 0.75])).log_prob(x)
-    errs = []
-    for mode, f in (("eager", lambda: d.log_prob(x)), ("unwrap-first", lambda: w.unwrap(d).log_prob(x)),
-                    ("jit", lambda: eqx.filter_jit(lambda m, y: m.log_prob(y))(d, x))):
-        u.count(mode, nontrivial=True, tag=mode)
-        try:
+    try:
+        if mode in ("eager", "unwrap-first", "jit"):
+            d = eqx.tree_at(lambda d: d.bijection, dist.Normal(loc, scale), replace_fn=w.NonTrainable)
+            ref = dist.Normal(loc, scale).log_prob(x)
+            f = {"eager": lambda: d.log_prob(x), "unwrap-first": lambda: w.unwrap(d).log_prob(x),
+                 "jit": lambda: eqx.filter_jit(lambda m, y: m.log_prob(y))(d, x)}[mode]
             v = f()
-            if float(v) != float(ref):
-                errs.append(f"{mode}: log_prob {float(v)!r} != {float(ref)!r}")
-        except Exception as e:
-            errs.append(f"{mode}: raises {type(e).__name__}")
-    if errs:
-        sig = "frozen-submodule:" + errs[0].split(":")[0]
-        import re
-        listed = any(k.get("property") == "C12" and re.fullmatch(k["match"], sig) for k in ctx.known)
-        msg = ("NonTrainable(<bijection of shape (2,)>) inside Normal: " + "; ".join(errs) + " (stop_gradient is applied to the python ints of the "
-               "non-static shape field; they become tracers under jit)")
-        if listed:
-            ctx.violation(sig=sig, what=msg, case={"kind": "frozen-submodule"}, found_input=True, unit=u.name, expected=float(ref), observed=errs,
-                          broken="C12_method_unwrap_invariant on the real code", reproducer="cd /verif && ./check C12 --replay <this file>")
+            return None if float(v) == float(ref) else f"log_prob {float(v)!r} != {float(ref)!r}"
+        # training with a frozen non-() subtree: must run; frozen leaves bit-identical; the rest trains
+        flow = dist.Transformed(dist.Normal(loc, scale), bij.Affine(jnp.array([0.25, 0.5]), jnp.array([2.0, 0.5])))
+        where = {"fit_to_data:base": lambda t: t.base_dist, "fit_to_data:bijection": lambda t: t.bijection,
+                 "fit_to_variational_target:base": lambda t: t.base_dist, "fit_to_variational_target:inner": lambda t: t.base_dist.bijection}[mode]
+        flow = eqx.tree_at(where, flow, replace_fn=w.NonTrainable)
+        opt = s["optax"].adamw(1e-2, weight_decay=0.1)
+        if mode.startswith("fit_to_data"):
+            data = jnp.asarray(np.random.default_rng(0).standard_normal((8, 2)))
+            out, _ = s["fit_to_data"](jr.PRNGKey(0), flow, data, max_epochs=2, batch_size=3, val_prop=0.25, optimizer=opt, return_best=False, show_progress=False)
         else:
-            ctx.notes.append("DEFECT CANDIDATE (not listed in known_findings.json, reported as a note only): " + msg)
+            out, _ = s["fit_var"](jr.PRNGKey(0), flow, ElboLoss(lambda z: -0.5 * jnp.sum((z - 1.0) ** 2), 4), steps=3, optimizer=opt, return_best=False, show_progress=False)
+        err, moved = real_frozen_check(flow, out)
+        if err:
+            return err
+        return None if moved > 0 else "no trainable leaf moved"
+    except Exception as e:
+        return f"raises {type(e).__name__}: {str(e)[:120]}"
+
+
+FROZEN_SUBMODULE_MODES = ["eager", "unwrap-first", "jit", "fit_to_data:base", "fit_to_data:bijection", "fit_to_variational_target:base",
+                          "fit_to_variational_target:inner"]
+
+
+def unit_frozen_submodule(ctx):
+    u = ctx.unit("frozen-submodule", "NonTrainable around a whole sub-module of shape (2,) (python ints in its non-static shape field): log_prob eager = "
+                                     "jitted = on unwrap(object); both training loops run, leave the frozen subtree bit-identical and train the rest")
+    for mode in FROZEN_SUBMODULE_MODES:
+        u.count(mode, nontrivial=True, tag=mode.split(":")[0])
+        err = frozen_submodule_case(mode)
+        if err:
+            ctx.violation(sig="frozen-submodule:" + mode.split(":")[0], what=f"NonTrainable(<sub-module of shape (2,)>), {mode}: {err}",
+                          case={"kind": "frozen-submodule", "mode": mode}, found_input=True, unit=u.name, expected="runs; same value; frozen leaves unchanged",
+                          observed=err, broken="C12_method_unwrap_invariant / C12_training_preserves_static on the real code",
+                          reproducer="cd /verif && ./check C12 --replay <this file>")
 
 
 def note_lambda_returning_wrapper(ctx):
@@ -1095,6 +1124,18 @@ def note_lambda_returning_wrapper(ctx):
 
 
 # ======================================================================================================
+def _guard(ctx, name, f, *a, **kw):
+    """A unit that crashes (possible only when the implementation misbehaves) is reported and the other units still run."""
+    import traceback
+
+    try:
+        f(ctx, *a, **kw)
+    except Exception:
+        tb = traceback.format_exc()
+        ctx.violation(sig=f"unit-crash:{name}", what=f"unit {name} could not run to completion: {tb[-400:]}", case={"kind": "unit-crash", "unit": name, "traceback": tb},
+                      found_input=False, unit=name, broken=f"correspondence unit {name}")
+
+
 def run(ctx):
     _setup()
     r = ctx.rng
@@ -1106,24 +1147,23 @@ def run(ctx):
         inner = {"w": "LA", "fn": "fn:add1", "args": [g_arr(r, [2, 3])]}
         wh = {"w": "WH", "c": [g_arr(r, [2, 3], "B"), {"w": "BR", "c": [inner], "bij": {"b": "SoftPlus", "shape": []}}, g_py(r, "PI")]}
         specs.append({"t": "dict", "keys": ["k"], "c": [{"w": "NT", "c": [{"t": "mod", "c": [{"w": "WN", "c": [wh]}, g_leaf(r)]}]}]})
-    unit_unwrap(ctx, specs, "unwrap-tree", "random pytrees (tuples/lists/dicts/eqx.Modules, depth 0-3) of nested wrappers (depth 1-4): wrappers.unwrap vs "
-                "Tree.unwrap_num -- structure/kinds/shapes exact, values bit-for-bit (1e-12 when exp/softplus/tanh/sqrt/division occur), call "
-                "trace vs Tree.unwrap_trace_num; non-trivial = at least 2 wrappers, nested at least 2 deep")
+    _guard(ctx, "unwrap-tree", unit_unwrap, specs, "unwrap-tree",
+           "random pytrees (tuples/lists/dicts/eqx.Modules, depth 1-3) of nested wrappers (depth 1-4): wrappers.unwrap vs "
+           "Tree.unwrap_num -- structure/kinds/shapes exact, values bit-for-bit (1e-12 when exp/softplus/tanh/sqrt/division occur), call "
+           "trace vs Tree.unwrap_trace_num; non-trivial = at least 2 wrappers, nested at least 2 deep")
     vspecs = [g_vmapped(r, int(r.integers(1, 3)), int(r.integers(1, 4))) for _ in range(50 if q else 700)]
     vspecs = [{"t": "tuple", "c": [v, g_leaf(r)]} if i % 3 == 0 else v for i, v in enumerate(vspecs)]
-    vflat = []
-    for v in vspecs:  # the oracle needs the vmap node itself
-        vflat.append(v)
-    unit_unwrap(ctx, [v for v in vflat if "vmap" in v], "unwrap-vmapped", "wrappers constructed under 1-2 levels of eqx.filter_vmap (batch sizes 1-3): unwrap vs "
-                "the model's vectorised apply (slices along the axes recorded in _dummy, stacked); oracle: = stack of individually constructed", vmapped=True)
-    unit_unwrap(ctx, [v for v in vflat if "vmap" not in v], "unwrap-vmapped-in-container", "the same, inside a tuple")
-    unit_malformed(ctx, 12 if q else 120)
-    unit_partition(ctx, specs[: (30 if q else 600)] + [g_mixed(r, int(r.integers(0, 3)), int(r.integers(1, 4))) for _ in range(40 if q else 800)])
-    unit_loops(ctx, [g_mixed(r, int(r.integers(0, 2)), int(r.integers(1, 3))) for _ in range(16 if q else 220)])
-    unit_methods(ctx, 7 if q else 70)
-    unit_conditioner(ctx, 8 if q else 120)
-    unit_training(ctx, 12 if q else 220)
-    unit_frozen_submodule(ctx)
+    _guard(ctx, "unwrap-vmapped", unit_unwrap, [v for v in vspecs if "vmap" in v], "unwrap-vmapped",
+           "wrappers constructed under 1-2 levels of eqx.filter_vmap (batch sizes 1-3): unwrap vs the model's vectorised apply (slices "
+           "along the axes recorded in _dummy, stacked); oracle: = stack of individually constructed", vmapped=True)
+    _guard(ctx, "unwrap-vmapped-in-container", unit_unwrap, [v for v in vspecs if "vmap" not in v], "unwrap-vmapped-in-container", "the same, inside a tuple")
+    _guard(ctx, "unwrap-malformed", unit_malformed, 12 if q else 120)
+    _guard(ctx, "partition", unit_partition, specs[: (30 if q else 600)] + [g_mixed(r, int(r.integers(0, 3)), int(r.integers(1, 4))) for _ in range(40 if q else 800)])
+    _guard(ctx, "loops", unit_loops, [g_mixed(r, int(r.integers(0, 2)), int(r.integers(1, 3))) for _ in range(16 if q else 220)])
+    _guard(ctx, "methods", unit_methods, 7 if q else 70)
+    _guard(ctx, "conditioner", unit_conditioner, 8 if q else 120)
+    _guard(ctx, "training-oracle", unit_training, 12 if q else 220)
+    _guard(ctx, "frozen-submodule", unit_frozen_submodule)
     note_lambda_returning_wrapper(ctx)
     ctx.assumptions += [
         "optimisers are functions of the params half that preserve its structure (optax updates + eqx.apply_updates)",
@@ -1159,10 +1199,9 @@ def replay(ctx, rep):
         print("oracle", err, {kk: v for kk, v in info.items() if kk in ("frozen", "moved")})
         return err is None
     if k == "frozen-submodule":
-        sub = common_subctx(ctx)
-        sub.known = [{"status": "fixed", "property": "C12", "match": "frozen-submodule:.*"}]
-        unit_frozen_submodule(sub)
-        return not sub.violations
+        err = frozen_submodule_case(c["mode"])
+        print("oracle", err)
+        return err is None
     if k in ("partition", "loops", "methods", "conditioner"):
         sub = common_subctx(ctx)
         if k == "partition":
